@@ -40,6 +40,8 @@ type Cfg struct {
 	Fill string // "none" | "null" | "num"     (join)
 	Tol  int    // tolerance in model time units (join); 0 = exact
 	On   bool   // join.on('b'): parent 0 grouped by b, parent 1 by b,f
+	// Script, if set, replaces the generated TICKscript (manual probes only).
+	Script string `json:",omitempty"`
 }
 
 func (c Cfg) String() string {
@@ -58,6 +60,9 @@ const fillNum = 0 // .fill(0): ids are >= 1, so 0 never collides with a real val
 
 // script builds the TICKscript of a scenario.
 func (c Cfg) script() string {
+	if c.Script != "" {
+		return c.Script
+	}
 	var sb strings.Builder
 	for i := 0; i < c.N; i++ {
 		nm := parentNames[i]
@@ -122,6 +127,8 @@ func (c Cfg) tags(src int, g string) map[string]string {
 type Step struct {
 	Src   int
 	Close bool
+	// SleepMs > 0: wait that long instead of delivering (manual probes with wall-clock driven nodes only).
+	SleepMs int `json:",omitempty"`
 }
 
 // runner owns one assembled environment and runs scenarios on it one at a time.
@@ -372,6 +379,13 @@ func (r *runner) Run(t *rt.Trace, c Cfg, parents [][]Msg, sched []Step) {
 	for _, s := range sched {
 		if failed {
 			break
+		}
+		if s.SleepMs > 0 {
+			time.Sleep(time.Duration(s.SleepMs) * time.Millisecond)
+			r.ts.reset()
+			delivered = 0
+			t.Event("Sleep", rt.M{"ms": s.SleepMs, "out": drain()})
+			continue
 		}
 		if s.Close {
 			if c.Edge != "batch" {
